@@ -1,4 +1,5 @@
 import J5V.Print.Layout
+import J5V.Print.Scalar
 /-!
 # C05 kernel 6 — the proto3 grammar subset the printer emits (core only)
 
@@ -61,6 +62,7 @@ def numRest : List Char → Char → List Char × List Char
 /-- the rest of a string literal after the opening quote: up to and including the closing quote -/
 def strRest : List Char → List Char × List Char
   | [] => ([], [])
+  | '\\' :: '\n' :: cs => (['\\'], '\n' :: cs)     -- unterminated
   | '\\' :: c :: cs => let (w, r) := strRest cs; ('\\' :: c :: w, r)
   | '"' :: cs => (['"'], cs)
   | '\n' :: cs => ([], '\n' :: cs)     -- unterminated
@@ -288,7 +290,9 @@ def typeName (ts : List PTok) : Option (String × List PTok) :=
   | ⟨.sym '.', _, _⟩ :: ⟨.ident s, _, _⟩ :: r => typeNameAux (ts.length + 1) r ("." ++ s)
   | _ => none
 
-def intOf (neg : Bool) (s : String) : Option Int := s.toNat?.map fun n => if neg then -(n : Int) else n
+/-- a field / enum value number: an integer literal (decimal, octal or hexadecimal) -/
+def intOf (neg : Bool) (s : String) : Option Int :=
+  (Scalar.readNatLit s.toList).map fun (n : Nat) => if neg then -(n : Int) else (n : Int)
 
 /-- `= number [ [options] ] ;` — the tail of a field or an enum value -/
 def fieldTail (ts : List PTok) : Option (Int × List RawOpt × Nat × List PTok) :=
